@@ -98,6 +98,7 @@ theorem FI_sinkAns (N : Nat) (links : List (Nat × List Tgt)) (hwf : TreeWF N li
     · exact ⟨h.respOK.1, all2_mono _ _ (fun p a => ra_ext g.log lg' c hx p a) _ _ h.respOK.2⟩
     · intro t htok hno; rw [hheld t htok]; exact h.nofeed t htok hno
     · exact h.wq0
+    · exact ordAt_none lg' c g.next hcu.2.1 hcu.1
   have h2 := FI_gReply N links hwf ss D' g' (.sink j) c a [] h1 True.intro (by simp [D', updD])
   rw [updD_updD, updD_D0] at h2
   exact h2
